@@ -675,7 +675,7 @@ func sortedKeys(m map[string]bool) []string {
 	return out
 }
 
-const c13Rule = "Seeded generation of well-formed PacketDSL programs (biased to >=2 packets, >=2 match fields over different key fields in one packet, cross-packet references, file names colliding after case conversion); per program one reference world (every map iteration in sorted key order, clock pinned, process identity pinned) and k perturbed worlds: all-reverse, rotation, uniform random and mixed permutations per dynamic map-iteration instance, exactly-one-static-site-reversed schedules, clock schedules (advance, year-boundary straddle, backwards skew), varied process identity, all at once, and the identical schedule in other OS processes under GOMAXPROCS 1/4/16; library level (many worlds per worker process) plus CLI level (one OS process per world). A case counts as distinct and non-trivial when its choice log contains at least one non-identity decision applied to a choice space of size >= 2, keyed by (program, non-identity decisions)."
+const c13Rule = "Seeded generation of well-formed PacketDSL programs (biased to >=2 packets, >=2 match fields over different key fields in one packet, cross-packet references, file names colliding after case conversion); per program one reference world (every map iteration in sorted key order, clock pinned, process identity pinned) and k perturbed worlds: all-reverse, rotation, uniform random and mixed permutations per dynamic map-iteration instance, exactly-one-static-site-reversed schedules, clock schedules (advance, year-boundary straddle, backwards skew), varied process identity, all at once, the identical schedule in other OS processes under GOMAXPROCS 1/4/16/2/3 and in fresh processes with GOGC=off and GOGC=1; every 128th program has 130-290 packets; library level (many worlds per worker process) plus CLI level (one OS process per world; there also stale output, varied environment, /dev/full, one transient I/O error, and a machine stall of 2 s .. 2 days on the bubble clock before one file operation: a faulted run that exits 0 must have written the reference tree). A case counts as distinct and non-trivial when its choice log contains at least one non-identity decision applied to a choice space of size >= 2, keyed by (program, non-identity decisions)."
 
 var c13Assumptions = []string{
 	"map iteration inside third-party modules (antlr4-go, cobra, strcase, std) is not behind a seam; the thorough tier cross-checks the unrewritten binary in fresh processes",
